@@ -50,3 +50,29 @@ Theorem C06_first_available_is_least : forall used,
   ~ In (first_avail used) used /\ (forall k, (k < first_avail used)%nat -> In k used).
 Proof. exact first_avail_least. Qed.
 Print Assumptions C06_first_available_is_least.
+
+(* ---- into which mark class the marks of one anchor go (MarkFeatureWriter._makeMarkClassDefinitions) ----
+   For ANY classes the feature file already defines -- also under the name the writer generates, with stale anchors -- and
+   any candidate-name scheme that never repeats a name: every mark of the anchor is, with its own (rounded) anchor, in the
+   ONE class recorded for that anchor, which is the class the generated base / ligature / mark-to-mark statements reference. *)
+From U2F Require Import Mark.MarkClasses Mark.MarkClassesProofs.
+
+Theorem C06_marks_of_an_anchor_share_the_recorded_class : forall cand,
+  (forall name i j, cand name i = cand name j -> i = j) ->
+  forall marks cname cls, NoDup (map fst marks) -> anchor_ok marks (process_anchor cand marks cname cls) = true.
+Proof. exact process_anchor_ok. Qed.
+Print Assumptions C06_marks_of_an_anchor_share_the_recorded_class.
+
+Theorem C06_fresh_class_name_exists : forall cand,
+  (forall name i j, cand name i = cand name j -> i = j) ->
+  forall name cls, assoc (make_unique cand name cls) cls = None.
+Proof. exact make_unique_fresh. Qed.
+Print Assumptions C06_fresh_class_name_exists.
+
+(* repaired defect F20: without the pre-check the recorded class misses the marks defined before the clash *)
+Example C06_class_clash_before_repair_refuted :
+  let cls := [([1%Z], [([12%Z], (0%Z, 0%Z))])] in let marks := [([11%Z], (5%Z, 5%Z)); ([12%Z], (7%Z, 7%Z))] in
+  anchor_ok marks (process_anchor_old cand_ex marks [1%Z] cls) = false /\
+  anchor_ok marks (process_anchor cand_ex marks [1%Z] cls) = true.
+Proof. exact old_code_refuted. Qed.
+Print Assumptions C06_class_clash_before_repair_refuted.
